@@ -12,12 +12,17 @@
     integer, because the assertions say so;
   * `C05_sound_core`: `Sat ρ (initFmls cfg st) → Valid st (schedOf ρ)` for problems of the fragment `InCoreS`
     (tasks of every kind, workers, selections, dynamic assignment, work amounts, the time and scheduling
-    constraint classes, optional constraints, ForceApplyN, SameWorkers; no user expressions);
+    constraint classes, optional constraints, ForceApplyN, SameWorkers, unavailability of owned busy intervals, and —
+    over formulas that mention the problem's own variables only (`State.plainF`, through the second congruence
+    `PS.Proofs.Congr2`) — user expressions, conditional scheduling and the six connectives);
   * `C05_feasible_iff`, and with `C14_valid_order_free` the order-freeness of the verdict (`C14_core_verdict`).
 -/
 import PS.Theorems.C14
 import PS.Theorems.C06
 import PS.Theorems.C03
+import PS.Proofs.Congr2
+import PS.Proofs.StepWF
+import PS.Spec.Fragment
 namespace PS
 
 /-- the user-level schedule an interpretation denotes -/
@@ -139,85 +144,8 @@ theorem envOf_schedOf_busy (cfg : Config) (st : State) (ρ : Env) (hρ : Sat ρ 
 
 /-! ### the constraint classes of the fragment -/
 
-/-- constraint bodies of the fragment of `C05_sound_core`: their documented meaning only reads task times and flags -/
-def CBody.inCoreS : CBody → Bool
-  | .startAt .. | .startAfter .. | .endAt .. | .endBefore .. | .precedence .. | .startSynced .. | .endSynced ..
-  | .dontOverlap .. | .forceSchedule .. | .dependency .. | .forceScheduleN .. | .forceApplyN .. | .sameWorkers .. => true
-  | _ => false
-
-theorem CBody.inCoreS_inCore (b : CBody) (h : b.inCoreS = true) : b.inCore = true := by
-  cases b <;> simp_all [CBody.inCoreS, CBody.inCore]
-
-theorem CBody.inCoreS_direct (b : CBody) (h : b.inCoreS = true) : b.direct = false := by
-  cases b <;> simp_all [CBody.inCoreS, CBody.direct]
-
-/-- the raw assertions of a constraint of the fragment imply its documented meaning on the schedule read off ρ -/
-theorem core_raw_sound (st : State) (ρ : Env) (c : Nat) (b : CBody) (hb : b.inCoreS = true)
-    (h : Sat ρ (b.raw c)) : CoreMeaning st (schedOf ρ) b := by
-  have hT := C03_raw_sound c b ρ h
-  have hR := C04_raw_sound c b ρ h
-  cases b <;> simp only [CBody.inCoreS, Bool.false_eq_true] at hb
-  case startAt t v =>
-    simp only [TaskMeaning] at hT
-    simp only [CoreMeaning, isSched_schedOf]
-    exact hT
-  case startAfter t v strict =>
-    simp only [TaskMeaning] at hT
-    simp only [CoreMeaning, isSched_schedOf]
-    exact hT
-  case endAt t v =>
-    simp only [TaskMeaning] at hT
-    simp only [CoreMeaning, isSched_schedOf]
-    exact hT
-  case endBefore t v strict =>
-    simp only [TaskMeaning] at hT
-    simp only [CoreMeaning, isSched_schedOf]
-    exact hT
-  case precedence b a off kind =>
-    simp only [TaskMeaning] at hT
-    simp only [CoreMeaning, isSched_schedOf]
-    exact hT
-  case startSynced t1 t2 =>
-    simp only [TaskMeaning] at hT
-    simp only [CoreMeaning, isSched_schedOf]
-    exact hT
-  case endSynced t1 t2 =>
-    simp only [TaskMeaning] at hT
-    simp only [CoreMeaning, isSched_schedOf]
-    exact hT
-  case dontOverlap t1 t2 =>
-    simp only [CoreMeaning, isSched_schedOf]
-    intro h1 h2
-    have := (guard2_eval t1 t2 (.xor (.ge t2.sVar t1.eVar) (.ge t1.sVar t2.eVar)) ρ).1
-      (h _ (by simp [CBody.raw])) h1 h2
-    simp only [Fml.eval, Term.eval, Task.sVar, Task.eVar] at this
-    have e1 : (schedOf ρ).end_ t1.name = ρ.i (.tEnd t1.name) := rfl
-    have e2 : (schedOf ρ).end_ t2.name = ρ.i (.tEnd t2.name) := rfl
-    have s1 : (schedOf ρ).start t1.name = ρ.i (.tStart t1.name) := rfl
-    have s2 : (schedOf ρ).start t2.name = ρ.i (.tStart t2.name) := rfl
-    rw [e1, e2, s1, s2]
-    by_cases ha : ρ.i (.tEnd t1.name) ≤ ρ.i (.tStart t2.name) <;>
-      by_cases hb' : ρ.i (.tEnd t2.name) ≤ ρ.i (.tStart t1.name) <;> simp_all
-  case forceSchedule t bb =>
-    simp only [TaskMeaning] at hT
-    simp only [CoreMeaning]
-    exact hT
-  case dependency t1 t2 =>
-    simp only [TaskMeaning] at hT
-    simp only [CoreMeaning, isSched_schedOf]
-    exact hT
-  case forceScheduleN ts n kind =>
-    simp only [TaskMeaning] at hT
-    simp only [CoreMeaning]
-    exact hT
-  case forceApplyN cs n kind =>
-    have := (C10_forceApplyN c cs n kind ρ).1 h
-    simp only [CoreMeaning]
-    exact this
-  case sameWorkers s1 s2 =>
-    simp only [ResMeaning] at hR
-    simp only [CoreMeaning]
-    exact hR
+theorem CBody.inCoreS_inCore (st : State) (id : Nat) (b : CBody) (h : b.inCoreS st id = true) : b.inCore = true := by
+  cases b <;> simp_all [CBody.inCoreS, CBody.inCore, CBody.isConn]
 
 /-! ### the fragment and the theorem -/
 
@@ -231,10 +159,14 @@ structure InCoreS (st : State) : Prop where
   /-- every logged requirement belongs to a declared task (an invariant of `step`) -/
   req_tasks : ∀ ev ∈ st.reqLog, ∃ t ∈ st.tasks, t.name = ev.task
   constrs : ∀ c ∈ st.constrs, c.operand = false →
-    c.body.inCoreS = true ∧ ∀ t ∈ c.body.coreTasks, st.findTask t.name = some t
-  no_indicators : st.indicators = []
+    c.body.inCoreS st c.id = true ∧ (c.optional = true → c.body.direct = false) ∧
+    ∀ t ∈ c.body.coreTasks, st.findTask t.name = some t
+  /-- every indicator is defined by one equation `indicator = T` … -/
+  indicators : IndsOK st
+  /-- … whose term mentions the problem's own primary variables only -/
+  ind_plain : ∀ ind ∈ st.indicators, ∀ T, ind.body.defTerm = some T → T.plainIn st.ownI ownB = true
   no_buffers : st.buffers = []
-  no_objectives : st.objectives = []
+  single_objective : st.objectives.length ≤ 1
 
 /-- every entry of a worker's busy-interval dictionary was written by a logged requirement -/
 theorem busyOf_mem (st : State) (w : String) (e : String × Bool) (he : e ∈ st.busyOf w) :
@@ -302,12 +234,69 @@ theorem InCoreS.inCore {st : State} (h : InCoreS st) : InCore st where
   names := h.names
   reqs := h.reqs
   constrs := fun c hc hop =>
-    ⟨CBody.inCoreS_inCore _ (h.constrs c hc hop).1, fun _ => CBody.inCoreS_direct _ (h.constrs c hc hop).1,
-     (h.constrs c hc hop).2⟩
-  indicators := by
-    refine ⟨?_, ?_, ?_⟩ <;> simp [h.no_indicators]
+    ⟨CBody.inCoreS_inCore _ _ _ (h.constrs c hc hop).1, (h.constrs c hc hop).2.1, (h.constrs c hc hop).2.2⟩
+  indicators := h.indicators
   no_buffers := h.no_buffers
-  single_objective := by simp [h.no_objectives]
+  single_objective := h.single_objective
+
+/-- for a state produced by a construction script the well-formedness part of `InCoreS` (task names identify tasks,
+    requirement events are well formed and belong to declared tasks) holds by the invariants of `step`
+    (`reachable_wf`); what remains are conditions on which elements the script declared -/
+theorem InCoreS.of_reachable {st : State} (hr : Reachable st) (hreqs : ReqsOK st)
+    (hconstrs : ∀ c ∈ st.constrs, c.operand = false →
+      c.body.inCoreS st c.id = true ∧ (c.optional = true → c.body.direct = false) ∧
+      ∀ t ∈ c.body.coreTasks, st.findTask t.name = some t)
+    (hinds : IndsOK st)
+    (hplain : ∀ ind ∈ st.indicators, ∀ T, ind.body.defTerm = some T → T.plainIn st.ownI ownB = true)
+    (hbuf : st.buffers = []) (hobj : st.objectives.length ≤ 1) : InCoreS st :=
+  have w := reachable_wf st hr
+  { names := findTask_of_nodup st w.nodup
+    reqs := hreqs
+    events := w.events
+    req_tasks := w.req_tasks
+    constrs := hconstrs
+    indicators := hinds
+    ind_plain := hplain
+    no_buffers := hbuf
+    single_objective := hobj }
+
+/-- the executable fragment test (`PS/Spec/Fragment.lean`, evaluated by the driver on every generated script) is
+    sound: a reachable state that passes it is in the fragment of the theorems below -/
+theorem fragmentB_sound {st : State} (hr : Reachable st) (h : st.fragmentB = true) : InCoreS st := by
+  unfold State.fragmentB at h
+  simp only [Bool.and_eq_true, decide_eq_true_eq] at h
+  obtain ⟨⟨⟨⟨⟨h1, h2⟩, h3⟩, h4⟩, h5⟩, h6⟩ := h
+  refine InCoreS.of_reachable hr ?_ ?_ ⟨?_, h4, ?_⟩ ?_ ?_ h6
+  · intro t ht r hr'
+    have := (List.all_eq_true.1 ((List.all_eq_true.1 h1) t ht)) r hr'
+    exact eq_of_beq this
+  · intro c hc hop
+    have := (List.all_eq_true.1 h2) c hc
+    simp only [hop, Bool.false_or, Bool.and_eq_true] at this
+    obtain ⟨⟨ha, hb⟩, hcT⟩ := this
+    refine ⟨ha, ?_, ?_⟩
+    · intro ho
+      simp only [ho, Bool.not_true, Bool.false_or] at hb
+      simpa using hb
+    · intro t ht
+      exact eq_of_beq ((List.all_eq_true.1 hcT) t ht)
+  · intro ind hi
+    have := (List.all_eq_true.1 h3) ind hi
+    simp only [Bool.and_eq_true] at this
+    exact this.1
+  · intro ind hi
+    have := (List.all_eq_true.1 h3) ind hi
+    simp only [Bool.and_eq_true] at this
+    cases hT : ind.body.defTerm with
+    | none => simp [hT] at this
+    | some T =>
+        simp only [hT, Bool.and_eq_true] at this
+        exact ⟨T, rfl, this.2.1.1, this.2.1.2⟩
+  · intro ind hi T hT
+    have := (List.all_eq_true.1 h3) ind hi
+    simp only [Bool.and_eq_true, hT] at this
+    exact this.2.2
+  · simpa using h5
 
 /-- agreement of ρ and the witness interpretation on the busy interval `(w, t, m)` some logged requirement of the declared
     task `t` created -/
@@ -321,6 +310,236 @@ theorem busy_agree (cfg : Config) (st : State) (ρ : Env) (hρ : Sat ρ (initFml
     exact List.mem_filter.2 ⟨hev, by simp [hn]⟩
   rw [← hn]
   exact envOf_schedOf_busy cfg st ρ hρ hc.events hc.reqs t ht (hc.names t ht) ev hev' r hr
+
+/-- ρ and the witness interpretation of the schedule read off it agree on the problem's own variables -/
+theorem agree_own (cfg : Config) (st : State) (ρ : Env) (hρ : Sat ρ (initFmls cfg st)) (hc : InCoreS st) :
+    Env.AgreeOn2 st.ownI ownB ρ (envOf st (schedOf ρ)) where
+  i := by
+    intro v hv
+    cases v <;> simp only [State.ownI, Bool.false_eq_true] at hv
+    case tStart n =>
+      cases hf : st.findTask n with
+      | none => simp [hf] at hv
+      | some t =>
+          have hm := List.mem_of_find?_eq_some hf
+          have hn : t.name = n := by
+            have := List.find?_some hf
+            exact eq_of_beq this
+          have := (envOf_schedOf_task cfg st ρ hρ t hm (hc.names t hm)).1
+          rw [hn] at this; exact this.symm
+    case tEnd n =>
+      cases hf : st.findTask n with
+      | none => simp [hf] at hv
+      | some t =>
+          have hm := List.mem_of_find?_eq_some hf
+          have hn : t.name = n := by
+            have := List.find?_some hf
+            exact eq_of_beq this
+          have := (envOf_schedOf_task cfg st ρ hρ t hm (hc.names t hm)).2
+          rw [hn] at this; exact this.symm
+    case tDur n =>
+      cases hf : st.findTask n with
+      | none => simp [hf] at hv
+      | some t =>
+          simp only [hf] at hv
+          have hm := List.mem_of_find?_eq_some hf
+          have hn : t.name = n := by
+            have := List.find?_some hf
+            exact eq_of_beq this
+          have e := envOf_tDur st (schedOf ρ) t (hc.names t hm)
+          rw [hn] at e
+          rw [e]
+          unfold tDurOf
+          by_cases hs : (schedOf ρ).isSched t = true
+          · simp only [hs, if_true]; rw [← hn]; rfl
+          · obtain ⟨ho, hb⟩ := not_isSched_schedOf ρ t hs
+            obtain ⟨_, _, h3⟩ := C06_parked cfg st ρ hρ t hm ho hb
+            simp only [hs, Bool.false_eq_true, if_false]
+            rw [← hn]; exact h3 hv
+    case busyS w n m =>
+      obtain ⟨ev, hev, h1⟩ := List.any_eq_true.1 hv
+      simp only [Bool.and_eq_true] at h1
+      obtain ⟨r, hr, h2⟩ := List.any_eq_true.1 h1.2
+      simp only [Bool.and_eq_true] at h2
+      have := (busy_agree cfg st ρ hρ hc ev hev r hr).1
+      rw [eq_of_beq h1.1, eq_of_beq h2.1, eq_of_beq h2.2] at this
+      exact this.symm
+    case busyE w n m =>
+      obtain ⟨ev, hev, h1⟩ := List.any_eq_true.1 hv
+      simp only [Bool.and_eq_true] at h1
+      obtain ⟨r, hr, h2⟩ := List.any_eq_true.1 h1.2
+      simp only [Bool.and_eq_true] at h2
+      have := (busy_agree cfg st ρ hρ hc ev hev r hr).2
+      rw [eq_of_beq h1.1, eq_of_beq h2.1, eq_of_beq h2.2] at this
+      exact this.symm
+    case horizon => rfl
+  b := by
+    intro v hv
+    cases v <;> simp only [ownB, Bool.false_eq_true] at hv <;> rfl
+
+/-- the value the witness interpretation gives a single-equation indicator is the value of its defining term -/
+theorem envOf_indicator (st : State) (σ : Sched) (hok : IndsOK st) (ind : Indicator) (hi : ind ∈ st.indicators)
+    (T : Term) (hT : ind.body.defTerm = some T) : (envOf st σ).i ind.var = T.eval (envOf st σ) := by
+  obtain ⟨T', hT', hqf, hvars⟩ := hok.simple ind hi
+  have : T' = T := by rw [hT] at hT'; exact (Option.some.inj hT').symm
+  subst this
+  have hval : (envOf st σ).i ind.var = T'.evalB (envPrim st σ) := by
+    simp only [envOf, hok.isInd ind hi, if_true, find?_of_pairwise_var _ hok.distinct ind hi, hT]
+  rw [hval, Term.evalB_eq _ T' hqf]
+  exact Term.eval_congr _ _ _ (envOf_agree st σ) T' hvars
+
+/-- … and on the indicator variables: ρ is forced to the value of the defining term, which reads own variables -/
+theorem agree_own2 (cfg : Config) (st : State) (ρ : Env) (hρ : Sat ρ (initFmls cfg st)) (hc : InCoreS st) :
+    Env.AgreeOn2 st.ownI2 ownB ρ (envOf st (schedOf ρ)) where
+  i := by
+    intro v hv
+    have h1 := agree_own cfg st ρ hρ hc
+    by_cases ho : st.ownI v = true
+    · exact h1.i v ho
+    · simp only [State.ownI2, ho, Bool.false_or] at hv
+      obtain ⟨ind, hi, hv'⟩ := List.any_eq_true.1 hv
+      have hvar : ind.var = v := eq_of_beq hv'
+      obtain ⟨T, hT, _, _⟩ := hc.indicators.simple ind hi
+      have hpl := hc.ind_plain ind hi T hT
+      have hρi : ρ.i ind.var = T.eval ρ := by
+        have hmem : Fml.eq (.var ind.var) T ∈ ind.asserts := by
+          unfold Indicator.asserts
+          rw [IBody.defTerm_fmls ind.body ind.id (.var ind.var) T hT]
+          simp
+        have := hρ _ (mem_init_indicator hi hmem)
+        simpa [Fml.eval, Term.eval] using this
+      rw [← hvar, hρi, envOf_indicator st _ hc.indicators ind hi T hT]
+      exact eval_congr2_term _ _ _ _ h1 T hpl
+  b := (agree_own cfg st ρ hρ hc).b
+
+/-- the raw assertions of a constraint of the fragment imply its documented meaning on the schedule read off ρ -/
+theorem core_raw_sound (st : State) (ρ : Env) (hag : Env.AgreeOn2 st.ownI2 ownB ρ (envOf st (schedOf ρ)))
+    (c : Nat) (b : CBody) (hb : b.inCoreS st c = true)
+    (h : Sat ρ (b.raw c)) : CoreMeaning st (schedOf ρ) b := by
+  have conn : ∀ b' : CBody, b'.isConn = true → (b'.raw c).all st.plainF = true → Sat ρ (b'.raw c) →
+      ConnMeaning (envOf st (schedOf ρ)) b' := by
+    intro b' hc' hp hs
+    apply (C10_connective_raw c b' hc' _).1
+    intro a ha
+    have hpa : a.plainIn st.ownI2 ownB = true := (List.all_eq_true.1 hp) a ha
+    exact (eval_congr2_fml _ _ _ _ hag a hpa).1 (hs a ha)
+  have hT := C03_raw_sound c b ρ h
+  have hR := C04_raw_sound c b ρ h
+  cases b <;> simp only [CBody.inCoreS, CBody.isConn, Bool.false_eq_true, Bool.false_and, Bool.true_and] at hb
+  case startAt t v =>
+    simp only [TaskMeaning] at hT
+    simp only [CoreMeaning, isSched_schedOf]
+    exact hT
+  case startAfter t v strict =>
+    simp only [TaskMeaning] at hT
+    simp only [CoreMeaning, isSched_schedOf]
+    exact hT
+  case endAt t v =>
+    simp only [TaskMeaning] at hT
+    simp only [CoreMeaning, isSched_schedOf]
+    exact hT
+  case endBefore t v strict =>
+    simp only [TaskMeaning] at hT
+    simp only [CoreMeaning, isSched_schedOf]
+    exact hT
+  case precedence b a off kind =>
+    simp only [TaskMeaning] at hT
+    simp only [CoreMeaning, isSched_schedOf]
+    exact hT
+  case startSynced t1 t2 =>
+    simp only [TaskMeaning] at hT
+    simp only [CoreMeaning, isSched_schedOf]
+    exact hT
+  case endSynced t1 t2 =>
+    simp only [TaskMeaning] at hT
+    simp only [CoreMeaning, isSched_schedOf]
+    exact hT
+  case dontOverlap t1 t2 =>
+    simp only [CoreMeaning, isSched_schedOf]
+    intro h1 h2
+    have := (guard2_eval t1 t2 (.xor (.ge t2.sVar t1.eVar) (.ge t1.sVar t2.eVar)) ρ).1
+      (h _ (by simp [CBody.raw])) h1 h2
+    simp only [Fml.eval, Term.eval, Task.sVar, Task.eVar] at this
+    have e1 : (schedOf ρ).end_ t1.name = ρ.i (.tEnd t1.name) := rfl
+    have e2 : (schedOf ρ).end_ t2.name = ρ.i (.tEnd t2.name) := rfl
+    have s1 : (schedOf ρ).start t1.name = ρ.i (.tStart t1.name) := rfl
+    have s2 : (schedOf ρ).start t2.name = ρ.i (.tStart t2.name) := rfl
+    rw [e1, e2, s1, s2]
+    by_cases ha : ρ.i (.tEnd t1.name) ≤ ρ.i (.tStart t2.name) <;>
+      by_cases hb' : ρ.i (.tEnd t2.name) ≤ ρ.i (.tStart t1.name) <;> simp_all
+  case forceSchedule t bb =>
+    simp only [TaskMeaning] at hT
+    simp only [CoreMeaning]
+    exact hT
+  case dependency t1 t2 =>
+    simp only [TaskMeaning] at hT
+    simp only [CoreMeaning, isSched_schedOf]
+    exact hT
+  case forceScheduleN ts n kind =>
+    simp only [TaskMeaning] at hT
+    simp only [CoreMeaning]
+    exact hT
+  case forceApplyN cs n kind =>
+    have := (C10_forceApplyN c cs n kind ρ).1 h
+    simp only [CoreMeaning]
+    exact this
+  case sameWorkers s1 s2 =>
+    simp only [ResMeaning] at hR
+    simp only [CoreMeaning]
+    exact hR
+  case conditionSchedule t cond =>
+    simp only [TaskMeaning] at hT
+    simp only [CoreMeaning]
+    rw [← eval_congr2_fml _ _ _ _ hag cond hb]
+    exact hT
+  case unavailable busy ivs =>
+    simp only [ResMeaning] at hR
+    simp only [CoreMeaning]
+    intro b' hb' iv hiv
+    have hown := (List.all_eq_true.1 hb) b' hb'
+    simp only [Bool.and_eq_true] at hown
+    have e1 : b'.sV (envOf st (schedOf ρ)) = b'.sV ρ := (hag.i _ (by simp [State.ownI2, hown.1])).symm
+    have e2 : b'.eV (envOf st (schedOf ρ)) = b'.eV ρ := (hag.i _ (by simp [State.ownI2, hown.2])).symm
+    rw [e1, e2]
+    exact hR b' hb' iv hiv
+  case indicatorTarget v value =>
+    simp only [CoreMeaning]
+    have hv : st.ownI2 v = true := by simp only [State.ownI2, hb, Bool.or_true]
+    rw [← hag.i v hv]
+    have := h (Fml.eq (.var v) (numT value)) (by simp [CBody.raw])
+    simpa [Fml.eval, Term.eval, numT] using this
+  case indicatorBounds v lo hi =>
+    simp only [CoreMeaning]
+    have hv : st.ownI2 v = true := by simp only [State.ownI2, hb, Bool.or_true]
+    rw [← hag.i v hv]
+    constructor
+    · intro l hl
+      have := h (Fml.ge (.var v) (numT l)) (by simp [CBody.raw, hl])
+      simpa [Fml.eval, Term.eval, numT] using this
+    · intro u hu
+      have := h (Fml.le (.var v) (numT u)) (by simp [CBody.raw, hu])
+      simpa [Fml.eval, Term.eval, numT] using this
+  case fromExpr f =>
+    simp only [CoreMeaning]
+    exact conn (.fromExpr f) rfl hb h
+  case not_ o =>
+    simp only [CoreMeaning, CBody.isConn, if_true]
+    exact conn (.not_ o) rfl hb h
+  case or_ os =>
+    simp only [CoreMeaning, CBody.isConn, if_true]
+    exact conn (.or_ os) rfl hb h
+  case and_ os =>
+    simp only [CoreMeaning, CBody.isConn, if_true]
+    exact conn (.and_ os) rfl hb h
+  case xor_ o1 o2 =>
+    simp only [CoreMeaning, CBody.isConn, if_true]
+    exact conn (.xor_ o1 o2) rfl hb h
+  case implies cond os =>
+    simp only [CoreMeaning, CBody.isConn, if_true]
+    exact conn (.implies cond os) rfl hb h
+  case ifThenElse cond os1 os2 =>
+    simp only [CoreMeaning, CBody.isConn, if_true]
+    exact conn (.ifThenElse cond os1 os2) rfl hb h
 
 /-- **C05 (soundness, scheduling core).** Every interpretation the constraint system admits denotes a schedule that
     satisfies the documented meaning of every element of the problem. -/
@@ -400,11 +619,11 @@ theorem C05_sound_core (cfg : Config) (st : State) (ρ : Env) (hc : InCoreS st)
         simp only [Term.eval, numT, bE, bS, this.1, this.2]
   constrs := by
     intro c hcm hop happ
-    obtain ⟨hin, _⟩ := hc.constrs c hcm hop
+    obtain ⟨hin, hdir, _⟩ := hc.constrs c hcm hop
     have hS : Sat ρ c.asserts := fun a ha => hρ a (mem_init_constr hcm hop ha)
-    apply core_raw_sound st ρ c.id c.body hin
+    apply core_raw_sound st ρ (agree_own2 cfg st ρ hρ hc) c.id c.body hin
     by_cases hopt : c.optional = true
-    · exact (C10_optional c hopt (CBody.inCoreS_direct _ hin) ρ).1 hS (happ hopt)
+    · exact (C10_optional c hopt (hdir hopt) ρ).1 hS (happ hopt)
     · have hopt' : c.optional = false := by cases hh : c.optional <;> simp_all
       rw [C10_mandatory c hopt'] at hS
       exact hS
@@ -419,6 +638,38 @@ theorem C05_feasible_iff (cfg : Config) (st : State) (hc : InCoreS st) :
     exact ⟨schedOf ρ, C05_sound_core cfg st ρ hc hρ hH⟩
   · rintro ⟨σ, hv⟩
     exact ⟨envOf st σ, C05_complete_core cfg st σ hc.inCore hv, hv.horizon_nonneg⟩
+
+/-- **C07 (the values the encoding can reach are the values valid schedules have).** For every declared indicator —
+    in particular the one an objective optimises — an integer is the indicator's value in some admitted
+    interpretation iff it is its value on some valid schedule: the optimum over the constraint system is the optimum
+    over the documented meaning. -/
+theorem C07_core_attainable (cfg : Config) (st : State) (hc : InCoreS st) (ind : Indicator) (hi : ind ∈ st.indicators)
+    (k : Int) :
+    (∃ ρ, Sat ρ (initFmls cfg st) ∧ 0 ≤ ρ.i .horizon ∧ ρ.i ind.var = k) ↔
+    (∃ σ, Valid st σ ∧ (envOf st σ).i ind.var = k) := by
+  constructor
+  · rintro ⟨ρ, hρ, hH, hk⟩
+    refine ⟨schedOf ρ, C05_sound_core cfg st ρ hc hρ hH, ?_⟩
+    have hv : st.ownI2 ind.var = true := by
+      simp only [State.ownI2, Bool.or_eq_true]
+      exact Or.inr (List.any_eq_true.2 ⟨ind, hi, beq_self_eq_true _⟩)
+    rw [← (agree_own2 cfg st ρ hρ hc).i _ hv]
+    exact hk
+  · rintro ⟨σ, hv, hk⟩
+    exact ⟨envOf st σ, C05_complete_core cfg st σ hc.inCore hv, hv.horizon_nonneg, hk⟩
+
+/-- … hence a bound holds for every admitted interpretation iff it holds for every valid schedule -/
+theorem C07_core_lower_bound (cfg : Config) (st : State) (hc : InCoreS st) (ind : Indicator) (hi : ind ∈ st.indicators)
+    (k : Int) :
+    (∀ ρ, Sat ρ (initFmls cfg st) → 0 ≤ ρ.i .horizon → k ≤ ρ.i ind.var) ↔
+    (∀ σ, Valid st σ → k ≤ (envOf st σ).i ind.var) := by
+  constructor
+  · intro h σ hv
+    exact h (envOf st σ) (C05_complete_core cfg st σ hc.inCore hv) hv.horizon_nonneg
+  · intro h ρ hρ hH
+    obtain ⟨σ, hv, hk⟩ := (C07_core_attainable cfg st hc ind hi (ρ.i ind.var)).1 ⟨ρ, hρ, hH, rfl⟩
+    rw [← hk]
+    exact h σ hv
 
 /-- the verdict does not depend on the solver configuration -/
 theorem C15_core_verdict_cfg_free (cfg cfg' : Config) (st : State) (hc : InCoreS st) :
@@ -445,8 +696,6 @@ theorem C14_core_schedules (cfg cfg' : Config) (st st' : State) (hc : InCoreS st
 /-! ### non-vacuity: a concrete problem of the fragment (kernel-checked), a model of its constraint system, and the
     valid schedule the theorem extracts from it -/
 
-deriving instance DecidableEq for TaskKind, Task, Req
-
 instance (ev : ReqEvent) : Decidable ev.WF := by
   cases ev <;> unfold ReqEvent.WF <;> infer_instance
 
@@ -462,7 +711,16 @@ def Exact_exState : State :=
        .constr none false (.precedence "A" "B" 1 .lax),
        .constr none true (.startAt "A" 2),
        .constr none false (.forceSchedule "C" false),
-       .constr none false (.dontOverlap "A" "B")]
+       .constr none false (.dontOverlap "A" "B"),
+       -- a user expression, a connective over the optional constraint, a conditional scheduling, an unavailability
+       .constr none false (.fromExpr (.le (.add (.var (.tEnd "A")) (numT 1)) (.var (.tStart "B")))),
+       .constr none false (.not_ (.ref 1)),
+       .constr none false (.implies (.gt (.var (.tStart "B")) (numT 8)) [.raw (.bvar (.sched "C"))]),
+       .constr none false (.unavailable "W" [(0, 1)]),
+       -- an optimisation problem: weighted tardiness (indicator 0) bounded by a constraint, flow time minimised
+       .indicator (.tardiness (some ["A"])),
+       .constr none false (.indicatorBounds 0 none (some 6)),
+       .objective (.flowtime none)]
 
 def Exact_exSched : Sched :=
   { sched := fun n => n == "B"
@@ -470,22 +728,14 @@ def Exact_exSched : Sched :=
     end_ := fun n => if n == "A" then 4 else if n == "B" then 7 else 0
     dur := fun n => if n == "B" then 2 else 0
     sel := fun s w => s == 0 && w == "V"
-    applied := fun _ => false
+    applied := fun c => c == 1        -- the operand of `Not` is applied, and violated: A starts at 1
     dynS := fun _ _ => 5
     dynE := fun _ _ => 6
     horizon := 10 }
 
-theorem Exact_ex_inCoreS : InCoreS Exact_exState where
-  names := by unfold NamesOK; decide +kernel
-  reqs := by unfold ReqsOK; decide +kernel
-  events := by decide +kernel
-  req_tasks := by decide +kernel
-  constrs := by decide +kernel
-  no_indicators := by decide +kernel
-  no_buffers := by decide +kernel
-  no_objectives := by decide +kernel
+theorem Exact_ex_inCoreS : InCoreS Exact_exState := fragmentB_sound ⟨_, rfl⟩ (by decide +kernel)
 
-example : Exact_exState.constrs.length = 4 ∧ Exact_exState.reqLog.length = 2 ∧ Exact_exState.tasks.length = 3 := by
+example : Exact_exState.constrs.length = 9 ∧ Exact_exState.indicators.length = 2 ∧ Exact_exState.objectives.length = 1 ∧ Exact_exState.reqLog.length = 2 ∧ Exact_exState.tasks.length = 3 := by
   decide +kernel
 
 theorem Exact_ex_model : Sat (envOf Exact_exState Exact_exSched) (initFmls {} Exact_exState) :=
